@@ -5,6 +5,7 @@ CONSTANTS
   MaxRows = 4
   MaxSteps = 14
   Level = "full"
+  MCTpls = {1}
 INIT Init
 NEXT NextRandom
 INVARIANTS TypeOK ColumnNamesUnique KeyColsExist ValuesTyped Integrity PKNotNull
